@@ -391,6 +391,10 @@ def _gen_model_op(r, root, path, m, sp, malformed):
         return {'k': 'setattr', 'kind': 'req-set', 'path': path, 'attr': name, 'val': val, 'parent': path, 'field': f}
     if c == 'rep':
         kind, tys = fields[f]
+        if api['rep'][name][1] and r.random() < 0.12:
+            meth = r.choice(['claim_interleaving_comments', 'unclaim_interleaving_comments', 'unclaim_interleaving_comments'])
+            return {'k': 'call', 'kind': 'claim-inter' if meth.startswith('claim') else 'unclaim-inter', 'path': path, 'attr': name,
+                    'm': meth, 'args': [], 'parent': []}
         return _gen_list_op(r, root, path, m, name, tys, sp, malformed, raw=True)
     if c == 'view':
         return _gen_view_op(r, root, path, m, name, sp, malformed)
@@ -402,7 +406,7 @@ def _gen_model_op(r, root, path, m, sp, malformed):
             return None
         return {'k': 'setattr', 'kind': 'spacing', 'path': path, 'attr': side, 'val': {'t': 'lit', 'v': r.choice([' ', '  ', '\t', '\n', ' \n  ', '\r\n', ''])}, 'parent': []}
     if c == 'claim':
-        meth = r.choice(['claim_leading_comment', 'claim_trailing_comment', 'unclaim_leading_comment', 'unclaim_trailing_comment'])
+        meth = r.choice(['claim_leading_comment', 'claim_trailing_comment', 'unclaim_leading_comment', 'unclaim_trailing_comment', 'auto_claim_comments'])
         if meth.startswith('claim'):
             return {'k': 'call', 'kind': 'claim', 'path': path, 'm': meth, 'args': [], 'parent': []}
         return {'k': 'call', 'kind': 'unclaim', 'path': path, 'm': meth, 'args': [], 'parent': []}
